@@ -28,9 +28,9 @@ theorem rejected_leaves_objects (w : World) (op : Op) (h : op.rejected = true) :
     (step w op).items = w.items ∧ (step w op).headerOrigin = w.headerOrigin :=
   rejected_keeps_items w op h
 
-theorem later_copy_numbers_unaffected (w : World) (op : Op) (h : op.rejected = true) (k : Key) (n : PStr) :
-    copyNumber (step w op) k n = copyNumber w k n :=
-  copyNumber_items _ _ (rejected_keeps_items w op h).1 k n
+theorem later_copy_numbers_unaffected (w : World) (op : Op) (h : op.rejected = true) (lf kind : Nat) (sn : Option PStr)
+    (n : PStr) : copyNumber (step w op) lf kind sn n = copyNumber w lf kind sn n := by
+  rw [rejected_is_identity w op h]
 
 /-- all steps: any number of rejected calls, anywhere in the history, before or after the objects they could have
 disturbed, through any logical file and naming any set: the state is that of the history without them -/
